@@ -20,7 +20,7 @@ TRUSTED = ["g++ 12 and the API model (signals as member functions dispatching to
            "model/Sem.v as the reading of the handler language; the general theorem is NOT proved: decided per generated handler, argument values and world"]
 HDR = "From Coq Require Import DecimalString.\n" + exe.HEADER
 SIGNALS = {(): ("onFired", "fired", []), ("int",): ("onRoChanged", "roChanged", ["int"]), ("int", "bool"): ("onPicked", "picked", ["int", "bool"]),
-           ("int", "string"): ("onFired2", "fired2", ["int", "string"])}
+           ("int", "string"): ("onFired2", "fired2", ["int", "string"]), ("double",): ("onDChanged", "dChanged", ["double"])}
 
 
 def coq_arg(t, v):
@@ -28,6 +28,8 @@ def coq_arg(t, v):
         return "(VI (%d))" % v
     if t == "bool":
         return "(VB %s)" % ("true" if v else "false")
+    if t == "double":
+        return "(VD (model.Floats.canon %d%%N))" % v
     return "(VS %s)" % prog.coq_text(v)
 
 
@@ -36,6 +38,8 @@ def line_arg(t, v):
         return str(v)
     if t == "bool":
         return str(int(v))
+    if t == "double":
+        return str(v)
     return exe.hexs(v)
 
 
@@ -51,7 +55,7 @@ def run(ctx):
         g = sgen.Gen(rng, max_depth=rng.choice([2, 3]), handler=True)
         p, sig = g.handler_program()
         if p[0] == "callback_func":
-            sig = {("int",): ("int",), ("bool",): ("int", "bool"), ("string",): ("int", "string"), ("int", "string"): ("int", "string"), (): ()}[tuple(sig)]
+            sig = {("int",): ("int",), ("bool",): ("int", "bool"), ("string",): ("int", "string"), ("int", "string"): ("int", "string"), (): (), ("double",): ("double",)}[tuple(sig)]
             # the declared parameters must be a prefix of the signal's: regenerate the parameter list accordingly
             want = [sgen.ANNOT[t] for t in sig][:len(p[1])]
             if [ty for _, ty in p[1]] != want:
@@ -118,7 +122,7 @@ def run(ctx):
             cs = []
             for _ in range(ncases):
                 w = exe.world(rng)
-                args = [rng.choice(exe.INTS) if t == "int" else (rng.random() < 0.5) if t == "bool" else rng.choice(exe.STRS) for t in SIGNALS[sig][2]]
+                args = [rng.choice(exe.INTS) if t == "int" else (rng.random() < 0.5) if t == "bool" else rng.choice(exe.DOUBLES) if t == "double" else rng.choice(exe.STRS) for t in SIGNALS[sig][2]]
                 cs.append((w, args))
             cases[(ci, k)] = cs
             terms.append("handle_all %s %s" % (prog.coq_program(p), C.coq_list(["(%s, %s)" % (exe.coq_world(w), C.coq_list([coq_arg(t, v) for t, v in zip(SIGNALS[sig][2], args)])) for w, args in cs])))
@@ -131,7 +135,7 @@ def run(ctx):
     outs = [o for part in parts for o in part]
     expected = {}
     for (ci, k), o in zip(where, outs):
-        expected[(ci, k)] = re.findall(r'"([^"]*)"', o)
+        expected[(ci, k)] = [exe.canon_doubles(x) for x in re.findall(r'"([^"]*)"', o)]
         if len(expected[(ci, k)]) != ncases:
             ctx.broke("K", "model/Sem.v evaluation", "the reference evaluator gave no result list for a handler: %s" % o[:600])
             return
